@@ -91,6 +91,8 @@ fn err_class(msg: &str) -> String {
         format!("err extender {}", num_after("line "))
     } else if msg.contains("exit code provided multiple times") {
         format!("err exit-code-twice {}", num_after("line "))
+    } else if msg.contains("exit code [") && msg.contains("is out of range") {
+        format!("err exit-code-out-of-range {}", num_after("line "))
     } else if msg.contains("output expectation or exit code given") {
         format!("err body-without-command {}", num_after("line "))
     } else if msg.contains("exit code given") {
@@ -227,7 +229,13 @@ pub fn make_op(text: &str, real: &Real) -> String {
     )
 }
 
-/// oracles that need no expected value: crash; every reported test sits on a `$ ` line of the
+/// independent of the parser's regex: "[" one or more ASCII digits "]", whether or not the number fits an i32
+fn exit_code_form(line: &str) -> bool {
+    let b = line.as_bytes();
+    b.len() >= 3 && b[0] == b'[' && b[b.len() - 1] == b']' && b[1..b.len() - 1].iter().all(|c| (b'0'..=b'9').contains(c))
+}
+
+/// oracles that need no expected value: crash; no expectation has the form of an exit code line; every reported test sits on a `$ ` line of the
 /// document and carries that line's text; tests are in document order; expectation texts are
 /// lines of the document after the `$` line
 fn structural(text: &str, real: &Real) -> Vec<(String, String)> {
@@ -256,6 +264,9 @@ fn structural(text: &str, real: &Real) -> Vec<(String, String)> {
                 let ncmd = t.cmd.split('\n').count();
                 let _ = prev_start;
                 let mut at = t.line - 1 + ncmd; // first line after the command
+                for e in t.exps.iter().filter(|e| exit_code_form(e)) {
+                    f.push(("C06:exit-code-out-of-range-becomes-expectation".to_string(), format!("the test at line {} carries the expectation `{}`, which has the form of an exit code line (exit code of the test: {:?})", t.line, e, t.code)));
+                }
                 for e in &t.exps {
                     match (at..lines.len()).find(|i| lines[*i] == e) {
                         Some(i) => at = i + 1,
@@ -345,7 +356,7 @@ const GAPS: &[&str] = &[" ", "", "  ", "\t"];
 const COMMENTS: &[&str] = &["# a comment", "#", "## two", "#$ echo no"];
 const CMDS: &[&str] = &["echo hello", "true", "false", "echo 'a b'  ", "cat <<EOF", "echo привет", "x=1; echo $x", "echo '```'"];
 const MORE: &[&str] = &["second line", "EOF", " && echo more", ""];
-const AFTER: &[&str] = &["hello", "out (glob)", "a* (glob+)", "b.*c (regex)", "", "  leading", "[x]", "[99999999999]", "[-1]", "[+7]", "[ 1]", "$ not a command", "> not a continuation", "# not a comment", "привет", "(no-eol)", "``", "text \\", "- - -"];
+const AFTER: &[&str] = &["hello", "out (glob)", "a* (glob+)", "b.*c (regex)", "", "  leading", "[x]", "[99999999999] (equal)", "[2147483648] ", "[-1]", "[+7]", "[ 1]", "$ not a command", "> not a continuation", "# not a comment", "привет", "(no-eol)", "``", "text \\", "- - -"];
 const BODY: &[&str] = &["print('x')", "$ fake command", "", "```scrut", "```", "# not a title", "---", "[1]", "`` two", "``` three"];
 
 fn gen_block(rng: &mut Rng, with_cmd: bool) -> Block {
@@ -369,7 +380,7 @@ fn gen_block(rng: &mut Rng, with_cmd: bool) -> Block {
             }
         }
         if rng.chance(1, 2) {
-            let code = *rng.pick(&["[0]", "[1]", "[255]", "[007]", "[2147483647]"]);
+            let code = *rng.pick(&["[0]", "[1]", "[255]", "[007]", "[2147483647]", "[0002147483647]"]);
             let at = rng.range(0, after.len());
             after.insert(at, code.to_string());
         }
@@ -754,6 +765,18 @@ fn witnesses() -> Vec<(&'static str, &'static str, &'static str, fn(&Real) -> bo
             |r| !matches!(r, Real::Ok(_, ts) if ts.len() == 1),
         ),
         (
+            "C06:exit-code-out-of-range-becomes-expectation",
+            "```scrut\n$ true\n[2147483648]\n```\n",
+            "a line `[digits]` is the expected exit code; a number that does not fit is an error, not silently the output expectation `[2147483648]` of a test without exit code",
+            |r| matches!(r, Real::Ok(_, ts) if ts.iter().any(|t| t.exps.iter().any(|e| exit_code_form(e)))),
+        ),
+        (
+            "C06:exit-code-out-of-range-becomes-expectation",
+            "```scrut\n$ true\nout\n[99999999999]\n```\n",
+            "a line `[digits]` is the expected exit code; a number that does not fit is an error, not silently an output expectation",
+            |r| matches!(r, Real::Ok(_, ts) if ts.iter().any(|t| t.exps.iter().any(|e| exit_code_form(e)))),
+        ),
+        (
             "C06:config-dropped",
             "```scrut {timeout: 1s} \n$ true\n```\n",
             "the inline configuration followed by a blank must be applied or rejected, not silently ignored",
@@ -762,6 +785,8 @@ fn witnesses() -> Vec<(&'static str, &'static str, &'static str, fn(&Real) -> bo
     ]
 }
 
+/// lines behind `$ cmd` of an open scrut block: exit code lines at the edge of i32 among the other kinds of body lines
+const EXIT_LINES: &[&str] = &["> more", "out", "[1]", "[2147483647]", "[2147483648]", "[99999999999]", "[0002147483647]", "[0002147483648]", "```", "$ cmd"];
 const ALPHABET: &[&str] = &["", "text", "# h", "---", "```", "```scrut", "```scrut {timeout: 1s}", "````scrut", "```python", "``x``", "``` `x` ```", "$ cmd", "> more", "out", "[1]", "# c"];
 
 /// The binary reads Markdown documents through `FileParser` (src/bin/utils/file_parser.rs), with or without
@@ -926,7 +951,7 @@ pub fn run(ctx: &Ctx, prop: &str) {
             }
             1 => {
                 let a = rng.range(0, lines.len());
-                lines.insert(a, rng.pick(ALPHABET).to_string());
+                lines.insert(a, if rng.chance(1, 3) { rng.pick(EXIT_LINES).to_string() } else { rng.pick(ALPHABET).to_string() });
             }
             _ => {}
         }
@@ -960,6 +985,27 @@ pub fn run(ctx: &Ctx, prop: &str) {
         }
         let text = join_doc(&lines, false, true);
         Some(case_of(prop, &text, vec![], vec![]))
+    });
+    // 4b. exit code lines at the edge of i32: an open scrut block with a command, then every sequence of body lines
+    let maxe = if ctx.thorough { 5 } else { 4 };
+    let e = EXIT_LINES.len() as u64;
+    let mut total = 0u64;
+    let mut eoffs = vec![];
+    for len in 0..=maxe {
+        eoffs.push(total);
+        total += e.pow(len);
+    }
+    ctx.note(format!("exhaustive: \"```scrut\" \"$ cmd\" followed by every sequence of at most {maxe} lines of {:?}", EXIT_LINES));
+    ctx.run_stream("exit-code-range-exhaustive", total, true, |idx| {
+        let len = (0..eoffs.len()).rev().find(|l| eoffs[*l] <= idx).unwrap();
+        let mut r = idx - eoffs[len];
+        let mut lines = vec!["```scrut".to_string(), "$ cmd".to_string()];
+        for _ in 0..len {
+            lines.push(EXIT_LINES[(r % e) as usize].to_string());
+            r /= e;
+        }
+        let text = join_doc(&lines, false, true);
+        Some(case_of(prop, &text, vec![], vec!["exit-code-range".into()]))
     });
     // 5. character-level exhaustive for the line splitter and the fence recogniser: one fence line
     //    over a character alphabet, followed by a fixed test body
